@@ -1,5 +1,6 @@
 """C12 — files are re-sent exactly when the update rule says so; repeat syncs are no-ops."""
 import p_recv
+import p_sync
 from vlib import Broken, Verdict
 
 
@@ -17,11 +18,30 @@ def sig(o, s):
 
 def check(w):
     v = Verdict(w, "model_checking")
+    quick = w.tier == "quick"
     r, cov, scen = p_recv.design_and_generate(w, "c12")
     counts = {"traces": 0, "trace_states": 0}
     chunks = (0, 1, 7) if w.tier == "thorough" else (0,)
     obs, rej = p_recv.run_validate_confirm(w, "c12", scen, "c12", v, counts, sig, chunks=chunks, judge=("reqs", "type", "content", "mtime", "repeat"))
     nneg = p_recv.negative_controls(w, "c12", obs, rej, w.seed)
+    # ---- the same decision table with the REAL sender on the other end (library client <-> server over the instrumented
+    #      transport, both directions): the requests on the wire must be the specification's (RsyncTrace), the outcome
+    #      Expected's (SyncTrace), and with -t (no -I) the immediately repeated sync must re-send nothing.  Half of the
+    #      rows get an up-to-date EMPTY file "z" at the destination (what a checksum of no data looks like matters under -c).
+    lines = []
+    for k, sc in enumerate(scen):
+        src = [dict(p=e["name"], **{x: e[x] for x in ("t", "c", "sz", "mt", "perm", "tgt")}, ns=0) for e in sc["list"]]
+        dst = [n for n in sc["dst"] if n["p"] != "."]
+        if k % 2 == 0:
+            dst = dst + [dict(next(n for n in src if n["p"] == "z"))]
+        o = sc["opts"]
+        rep = o["t"] and not o["I"]
+        e2e = {"family": "c12", "universe": sc["universe"], "src": [n for n in src if n["p"] != "."], "dst": dst, "opts": o, "rules": []}
+        for arr in (("lib", "libpush") if not quick or k % 3 else ("lib", "libpush", "pull")):
+            lines.append(p_sync.mk_line(e2e, arr, ("type", "content") + (("repeat",) if rep else ()), repeat=rep))
+    ecounts = {}
+    eobs, erej = p_sync.run_validate_confirm(w, "c12", lines, "c12-e2e", v, ecounts, lambda o: {"kind": "e2e-" + ("error" if o["result"] != "ok" else "mismatch"), "arr": o["arr"],
+                                                                                             "c": o["opts"].get("c"), "I": o["opts"].get("I"), "resent_on_repeat": bool(o.get("resent2"))})
     nontriv = len({(json_key(o)) for o in obs if o["reqs"]})
     v.coverage = {
         "states": r["distinct"], "transitions": r["generated"],
@@ -35,7 +55,10 @@ def check(w):
         "rule": "one row of the decision table {f missing / dir, symlink, fifo in the way / regular with size, mtime(+-1 s, sub-second, far), content} x {-c, -I, -t}, "
                 "embedded in a tree with an up-to-date and a missing sibling, each followed by the same session again (with -t it must request nothing); non-trivial = the receiver requested at least one file",
         "action_coverage": cov, "negative_controls": nneg, "worker_crashes": counts.get("crashed", 0),
+        "end_to_end_rows_with_the_real_sender": len(eobs),
     }
+    v.coverage.update(p_sync.wire_coverage(ecounts))
+    v.coverage["traces_validated_against_impl"] += len(eobs)
     v.assumptions = ["content ids stand for byte contents (distinct ids = distinct pseudo-random contents, equal sizes where the row says so)",
                      "the reference sender (wirekit) answers every request with a correct delta"]
     return v.finish()
